@@ -53,6 +53,12 @@ def run(tier, replay):
         ares = json.load(open(ao))
         for b in ares["bad"] or []:
             V.violation("AGGREGATE payload: " + b["problem"][:200], b)
+        to = os.path.join(wd, "table.json")
+        rc, out = vlib.go_test(wd, "./internal/clients/handlers", OV, "TestC16Table", env={"VERIF_OUT": to}, timeout=600)
+        if rc != 0 or not os.path.exists(to):
+            raise vlib.Inconclusive("result table harness failed\n" + out[-2500:])
+        for b in json.load(open(to))["bad"] or []:
+            V.violation("mapreduce result table: the coloured table minus its escape sequences differs from the uncoloured one", b)
         so = os.path.join(wd, "sout.json")
         rc, out = vlib.go_test(wd, "./internal/clients/handlers", OV, "TestC16Streams",
                                env={"VERIF_OUT": so, "VERIF_N": 150 if tier == "quick" else 20000}, timeout=1800)
